@@ -47,7 +47,13 @@ func zzValueBytes(v value.Value) []byte {
 
 // zzWrite: a symbolic write request: right type, or a wrong type / wrong size.
 func zzWrite() (v value.Value, wellTyped bool, asInt32 int32) {
-	switch sym.Choose("write-kind", 4) {
+	switch sym.Choose("write-kind", 5) {
+	case 4:
+		// the declared type wrapped in a tuple: "(i)" is not "i"
+		var raw [4]byte
+		x := sym.U32("new-tuple")
+		raw[0], raw[1], raw[2], raw[3] = byte(x), byte(x>>8), byte(x>>16), byte(x>>24)
+		return value.Opaque("(i)", raw[:]), false, 0
 	case 0:
 		x := sym.I32("new-int")
 		return value.Int(x), true, x
